@@ -257,10 +257,15 @@ impl Router {
             Event::NewAlert(tx) => self.handle_new_alert(tx),
             Event::DeviceData => self.handle_device_payload(id),
             Event::Disconnect => self.handle_disconnection(id, None),
-            Event::Ready => self.scheduler.reschedule(id, ScheduleReason::Ready),
-            Event::Shadow(request) => {
-                retrieve_shadow(&mut self.datalog, &mut self.obufs[id], request)
-            }
+            Event::Ready => match self.obufs.contains(id) {
+                true => self.scheduler.reschedule(id, ScheduleReason::Ready),
+                // the link can signal readiness after the router dropped the connection
+                false => error!("no-connection id {} is already gone", id),
+            },
+            Event::Shadow(request) => match self.obufs.get_mut(id) {
+                Some(outgoing) => retrieve_shadow(&mut self.datalog, outgoing, request),
+                None => error!("no-connection id {} is already gone", id),
+            },
             Event::SendAlerts => {
                 self.send_alerts();
             }
